@@ -647,7 +647,7 @@ class tokenizer(object):
                     lexfirstind = len(ret) + 1
                 elif insideheredoc:
                     tind = lexfirstind
-                    while stripdoc and ret[tind] == '\t':
+                    while stripdoc and tind < len(ret) and ret[tind] == '\t':
                         tind += 1
                     if ret[tind:] == heredelim:
                         stripdoc = insideheredoc = False
@@ -658,7 +658,7 @@ class tokenizer(object):
             # bashlex/parse.y L3599
             if insideheredoc and c == close and count == 1:
                 tind = lexfirstind
-                while stripdoc and ret[tind] == '\t':
+                while stripdoc and tind < len(ret) and ret[tind] == '\t':
                     tind += 1
                 if ret[tind:] == heredelim:
                     stripdoc = insideheredoc = False
